@@ -80,7 +80,8 @@ Definition write_string (s : bytes) : bytes := [34] ++ flat_map write_char s ++ 
 (* JsonDeserializer::decodeHex on a (signed) char given as a byte *)
 Definition decode_hex (c : N) : N :=
   let sc := schar c in
-  if Z.ltb sc 65 then Z.to_N (wrapZu 8 (sc - 48))
+  if Z.leb sc 57 then Z.to_N (wrapZu 8 (sc - 48))
   else
     let up := schar (N.land c 0xDF) in      (* char(c & ~0x20) *)
-    Z.to_N (wrapZu 8 (up - 65 + 10)).
+    if Z.ltb up 65 then 0xFF
+    else Z.to_N (wrapZu 8 (up - 65 + 10)).
